@@ -70,7 +70,7 @@ Definition enc_task (tk : task) : sx :=
 
 Definition run_trace (labs : list sx) : sx :=
       do ls <- map_opt dec_lab labs;
-      let '(y, acts) := sys_run sys0 ls in
+      let '(y, acts) := sys_run tls_flags sys0 ls in
       L [L (map enc_act acts); L (map enc_task (y_tasks y)); of_nat (length (wbio (y_sh y)));
          of_bool (send_lock (y_sh y)); of_bool (recv_lock (y_sh y))].
 
@@ -120,12 +120,12 @@ Definition run_thread (std : bool) (x : sx) : sx :=
 Definition run (x : sx) : sx :=
   match x with
   | L (A 1 :: A std :: L threads :: _) => L [L (map (run_thread (Z.eqb std 1)) threads)]
-  (* a trace recorded for one state of the lost-wakeup fix (flag) is only meaningful in that state *)
+  (* a trace recorded for one state of the fixes (flag = f_recheck + 2 * f_skiplock) is only meaningful in that state *)
   | L (L labs :: L (B _ :: A flag :: _) :: _) =>
-      if Bool.eqb (Z.eqb flag 1) recheck_after_recv_lock then run_trace labs else L [A 777]
+      if Z.eqb flag ((if f_recheck tls_flags then 1 else 0) + (if f_skiplock tls_flags then 2 else 0)) then run_trace labs else L [A 777]
   | L (L labs :: _) =>
       do ls <- map_opt dec_lab labs;
-      let '(y, acts) := sys_run sys0 ls in
+      let '(y, acts) := sys_run tls_flags sys0 ls in
       L [L (map enc_act acts); L (map enc_task (y_tasks y)); of_nat (length (wbio (y_sh y)));
          of_bool (send_lock (y_sh y)); of_bool (recv_lock (y_sh y))]
   | _ => bad_input
